@@ -59,6 +59,18 @@ theorem C05_enumeration_exact (env : Env) (c : Class) (hw : DevLessByWeight env)
     StrictWeak (less env c) ∧ (r ∈ rs ↔ IsSorted (less env c) l r) :=
   ⟨less_strictWeak env c hw, allSorted_exact (less_strictWeak env c hw) l rs h r⟩
 
+/-- …and it does not depend on the order in which the slots reach the sort (the model driver
+forgets that order between class iterations): permuted inputs have the same set of results. -/
+theorem C05_enumeration_order_independent (env : Env) (c : Class) (hw : DevLessByWeight env)
+    (l l' : List Slot) (hp : l.Perm l') (rs rs' : List (List Slot))
+    (h : allSorted (less env c) l = some rs) (h' : allSorted (less env c) l' = some rs') (r : List Slot) :
+    r ∈ rs ↔ r ∈ rs' := by
+  rw [(C05_enumeration_exact env c hw l rs h r).2, (C05_enumeration_exact env c hw l' rs' h' r).2]
+  unfold IsSorted
+  constructor
+  · rintro ⟨h1, h2⟩; exact ⟨h1.trans hp, h2⟩
+  · rintro ⟨h1, h2⟩; exact ⟨h1.trans hp.symm, h2⟩
+
 /-- non-vacuity: two blank-device mounts of one server compare equal, so there are exactly two
 sorted orders; the witnesses' `devLess` is a weight comparison -/
 example : DevLessByWeight okEnv ∧
